@@ -41,6 +41,11 @@ def run(ctx) -> None:
     ctx.rule("d.must-append", "multi-name selection: every feasible path through one iteration of `for name in key` appends "
                               "a column or raises (flag-sensitive); the exact stored-name scan comes first", 2)
     ctx.rule("d.dispatch-exhaustive", "Vector.__getitem__ ends by raising for unsupported key types", 1)
+    ctx.rule("f.untyped-empty", "`all vectors` includes the one without a dtype (Vector([]), a column of Table({'a': []})): no "
+                                "`X._dtype.<attr>` / `X.schema().<attr>` is reachable while that dtype can be None - guards on the path or "
+                                "inside the expression, dtypes passed through collections, `self` of a typed subclass; a private method "
+                                "that relies on its callers is judged at every call site", 3)
+    ctx.section("untyped-empty", _untyped_empty, ctx)
     ctx.rule("e.uniform-rows", "every row-selection branch of Table.__getitem__ maps the SAME key over ALL columns, unfiltered, in order", 2)
     ctx.rule("f.name-resolution", "string indexing: exact stored name first over all columns, missing name raises (R-NAME)", 2)
     ctx.section("compare", _compare, ctx)
@@ -48,6 +53,7 @@ def run(ctx) -> None:
     ctx.section("index", _index, ctx)
     ctx.section("mask", _mask, ctx)
     ctx.section("missing", _missing, ctx)
+    ctx.section("empty-list-mask", _empty_list_mask, ctx)
     ctx.section("rows", _rows, ctx)
     ctx.section("names", nameres.check, ctx, "f.name-resolution")
     ctx.not_decided += [
@@ -467,6 +473,13 @@ def _mask(ctx) -> None:
                               ".cols() are its ELEMENTS): t == v differs from v == t and t == list(v), t < v raises 'Column count mismatch'")
         elif d0 == CS and d1 in oth:
             row_pair += 1
+            # with no rows the row-by-row build (transposed afterwards) yields nothing - not the table of empty boolean columns: the
+            # row-wise form runs only for a table that has rows
+            lnS = ("call", ("name", "len"), (CS,), ())
+            if not any(c[0] == "cmp" and c[1] == "Eq" and {c[2], c[3]} == {lnS, ("const", "int", 0)} and not pol
+                       for c, pol in flatten_conds(e.conds)):
+                tprobs.append("a table without rows compared with a sequence is built row by row: the result is an untyped empty vector, "
+                              "not the table of empty boolean columns that t0 == 1 gives")
             y = ("elem", d1, lp.id)
             guarded = any(x[0] == "cmp" and x[1] in ("Is", "IsNot") and y in (x[2], x[3]) and ("const", "NoneType", None) in (x[2], x[3])
                           for x in subterms(e.value))
@@ -568,6 +581,140 @@ def _mask(ctx) -> None:
                    "not one: bare AssertionError, and no check at all under python -O)")
 
 
+def certainly_raised_for_empty_list(prog, q, self_len=None, errors=("TypeError",)):
+    """(number of raises judged, the raise events of `q` (a __getitem__ / __setitem__) whose path conditions are ALL definitely true
+    under key = [] - three-valued evaluation; `self_len` optionally fixes len(self))"""
+    from ..sites2 import interp_of as _iof
+    from ..symx import flatten_conds
+    f = prog.func(q)
+    it = _iof(prog, f)
+    KEY = ("param", f.params[1])
+    SELF = ("param", f.params[0])
+    keys = {KEY, ("call", ("attr", SELF, "_check_duplicate"), (KEY,), ())}
+    selfs = {SELF, ("attr", SELF, "_underlying")}
+    LISTY = {"list", "Iterable", "Sequence", "Sized", "Collection", "Container", "Reversible", "MutableSequence", "object"}
+
+    def val(t):
+        """abstract value: ('coll', frozenset|tuple) for a known collection, ('k', python value), or None (unknown)"""
+        if t in keys:
+            return ("coll", ())
+        if t[0] == "ifexp":                      # (a rebound key: key = () if <it addresses nothing> else key)
+            r = truth(t[1])
+            if r is None:
+                a_, b_ = val(t[2]), val(t[3])
+                return a_ if a_ == b_ else None
+            return val(t[2] if r else t[3])
+        if t[0] == "tuple":
+            return ("coll", tuple(t[1])) if not t[1] else None
+        if t[0] == "const":
+            return ("k", t[2])
+        if t[0] == "obj" and t[1] in it.objs:
+            o = it.objs[t[1]]
+            if o.kind in ("setcomp", "listcomp", "genexp"):
+                own = [e for e in it.events if e.kind == "elem" and e.term == t and e.loops]
+                if own and all((it.loops[e.loops[-1]].iter in keys or val(it.loops[e.loops[-1]].iter) == ("coll", ()))
+                               and len(e.loops) == len(o.loops) + 1 for e in own):
+                    return ("coll", frozenset() if o.kind == "setcomp" else ())        # it iterates the key: no element
+                return None
+            if o.kind == "set" and o.init and all(x[0] == "name" for x in o.init):
+                return ("coll", frozenset(x[1] for x in o.init))
+            if o.kind in ("list", "set") and not o.init:
+                return ("coll", frozenset() if o.kind == "set" else ())
+        if t[0] == "call" and t[1] == ("name", "len") and len(t[2]) == 1:
+            if t[2][0] in selfs and self_len is not None:
+                return ("k", self_len)
+            v = val(t[2][0])
+            return ("k", len(v[1])) if v and v[0] == "coll" else None
+        if t[0] == "call" and t[1] in (("name", "set"), ("name", "frozenset")) and len(t[2]) == 1:
+            v = val(t[2][0])
+            return ("coll", frozenset(v[1])) if v and v[0] == "coll" else None
+        return None
+
+    def truth(t):
+        if t[0] == "call" and t[1] == ("name", "isinstance") and len(t[2]) == 2 and (t[2][0] in keys or t[2][0][0] in ("ifexp", "tuple")):
+            ts = t[2][1]
+            names = [x[1] for x in (ts[1] if ts[0] == "tuple" else (ts,)) if x[0] == "name"]
+            n_all = len(ts[1]) if ts[0] == "tuple" else 1
+            kinds = LISTY
+            if t[2][0] not in keys:
+                x = t[2][0]
+                while x[0] == "ifexp":
+                    r = truth(x[1])
+                    if r is None:
+                        return None
+                    x = x[2] if r else x[3]
+                if x[0] == "tuple":
+                    kinds = (LISTY - {"list", "MutableSequence"}) | {"tuple"}
+                elif x not in keys:
+                    return None
+            if any(n in kinds for n in names):
+                return True
+            return False if len(names) == n_all else None
+        if t[0] == "un" and t[1] == "Not":
+            r = truth(t[2])
+            return None if r is None else not r
+        if t[0] == "bool":
+            rs = []
+            for x in t[2]:
+                r = truth(x)
+                rs.append(r)
+                if (t[1] == "and" and r is False) or (t[1] == "or" and r is True):
+                    break                      # (short circuit: what follows is not evaluated)
+            if t[1] == "and":
+                return False if False in rs else (None if None in rs else True)
+            return True if True in rs else (None if None in rs else False)
+        if t[0] == "call" and t[1] in (("name", "all"), ("name", "any")) and len(t[2]) == 1:
+            v = val(t[2][0])
+            if v and v[0] == "coll" and not v[1]:
+                return t[1][1] == "all"
+            return None
+        if t[0] == "cmp":
+            a_, b_ = val(t[2]), val(t[3])
+            if a_ is None or b_ is None:
+                return None
+            try:
+                x, y = a_[1], b_[1]
+                return {"Eq": lambda: x == y, "NotEq": lambda: x != y, "LtE": lambda: x <= y, "Lt": lambda: x < y,
+                        "GtE": lambda: x >= y, "Gt": lambda: x > y}.get(t[1], lambda: None)()
+            except TypeError:
+                return None
+        v = val(t)
+        if v is not None:
+            return bool(v[1])
+        return None
+
+    refused = []
+    n_r = 0
+    for e in it.events:
+        if e.kind != "raise" or e.term[0] != "call" or e.term[1][0] != "name" or not any(x in e.term[1][1] for x in errors):
+            continue
+        n_r += 1
+        fc = flatten_conds(e.conds)
+        if fc and all(truth(c) is pol for c, pol in fc):
+            refused.append(e)
+    return n_r, refused
+
+
+def _empty_list_mask(ctx) -> None:
+    """[] is the mask of length 0: v[[]] / t[[]] on an empty vector / table is a selection like v[Vector([], dtype=bool)] (the list a
+    comprehension over an empty column builds), not a key of an unsupported type.  Decided by evaluating the path conditions of every
+    raise of a *TypeError under key = [] (three-valued; a raise counts only if ALL its conditions are definitely true).  On a vector
+    [] is also the index list of no position: for a vector of 3 it does not certainly reach the mask-length refusal either."""
+    prog = ctx.prog
+    for q in ("vector.Vector.__getitem__", "table.Table.__getitem__"):
+        f = prog.func(q)
+        n_r, refused = certainly_raised_for_empty_list(prog, q, self_len=0, errors=("TypeError", "ValueError"))
+        if q.startswith("vector."):
+            n2, r2 = certainly_raised_for_empty_list(prog, q, self_len=3, errors=("TypeError", "ValueError"))
+            n_r, refused = n_r + n2, refused + r2
+        ctx.ob("d.dispatch-exhaustive", f, "empty-list-mask", not refused,
+               f"{n_r} raise(s) judged, none certainly reached by key = []", (refused[0].node if refused else f.node),
+               message=f"{q}: the empty list certainly reaches a refusal (line {getattr(refused[0].node, 'lineno', 0) if refused else 0}): a list "
+                       f"is taken for a mask only when the set of its element types EQUALS {{bool}}, which [] does not (mask = [x > 0 for x in "
+                       f"col]; col[mask] raises SerifTypeError exactly when col is empty), or [] - the index list of no position - is refused "
+                       f"as a mask of the wrong length on a non-empty vector")
+
+
 # ---------------------------------------------------------------------------------------------
 def _missing(ctx) -> None:
     prog = ctx.prog
@@ -635,6 +782,81 @@ def _missing(ctx) -> None:
     probs += [f"the loop over the requested names can be left early by `{short(s, 40)}`" for s in early + brk]
     ctx.ob("d.must-append", f, "exact-first", not probs, "per requested name the exact stored-name scan comes first and yields a copy", lp,
            message="; ".join(p if isinstance(p, str) else p[0] for p in probs))
+
+
+def _untyped_empty(ctx) -> None:
+    from ..nulldtype import analyse, facts_from
+    from ..symx import Interp as SInterp
+    from ..symx import subterms
+    prog = ctx.prog
+    n_sites, flagged = analyse(prog)
+    by_func = {}
+    for q, line, txt, node in flagged:
+        by_func.setdefault(q, []).append((line, txt, node))
+    judged = 0
+    for q, items in sorted(by_func.items()):
+        f = prog.functions[q]
+        why_ok = None
+        only_self = all(txt in ("self._dtype", "self.schema()") for _, txt, _n in items)
+        # (a) only inside the handler of a TypeError that an operation on an ELEMENT raised (the message of the SerifTypeError raised
+        #     there): an element exists, so the vector is typed
+        fi = SInterp(prog, f)
+        FS = ("param", f.params[0]) if f.params else None
+        uses = [e for e in fi.events if any(x in (("attr", FS, "_dtype"), ("call", ("attr", FS, "schema"), (), ())) for t_ in (e.term, e.value)
+                                            if t_ is not None for x in subterms(t_))]
+        in_handler = lambda e: any(pol and c[0] == "call" and c[1] == ("name", "<except>") and c[2] and c[2][0] == ("name", "TypeError")
+                                   for c, pol in e.conds)
+        if only_self and uses and all(in_handler(e) for e in uses if e.kind in ("raise", "call") and e.term[0] == "call"
+                                      and e.term[1] == ("name", "SerifTypeError")) \
+                and any(e.kind == "raise" and in_handler(e) for e in uses):
+            unguarded_outside = [e for e in uses if not in_handler(e) and not any(
+                pol is not None and x[0] == "cmp" and x[1] in ("Is", "IsNot") for c, pol in e.conds for x in [c])]
+            if all(in_handler(e) or getattr(e.node, "lineno", 0) != items[0][0] for e in uses):
+                why_ok = "only in the message of the SerifTypeError raised in the handler of a TypeError from an element operation (an element exists: typed)"
+        if why_ok is None and only_self and f.name.startswith("_") and not f.name.startswith("__"):
+            # a private method relying on `self` being typed: every call site in the package must know that of its receiver
+            sites = []
+            for g in prog.functions.values():
+                if isinstance(g.node, ast.Lambda) or g.parent is not None:
+                    continue
+                if not any(isinstance(n, ast.Attribute) and n.attr == f.name for n in ast.walk(g.node)):
+                    continue
+                gi = SInterp(prog, g)
+                for e in gi.events:
+                    if e.kind == "call" and e.term[1][0] == "attr" and e.term[1][2] == f.name:
+                        recv = e.term[1][1]
+                        known = set()
+                        GS = ("param", g.params[0]) if g.params else None
+                        if g.cls in ("_Int", "_Float", "_String", "_Date") and GS is not None:
+                            known |= {("attr", GS, "_dtype"), ("call", ("attr", GS, "schema"), (), ())}
+                        for c, pol in e.conds:
+                            facts_from(c, pol, known)
+                        # a receiver built in this function with a dtype that is known non-None counts too
+                        base_recv = recv
+                        while base_recv[0] == "call" and base_recv[1][0] == "attr" and base_recv[1][2] == "copy":
+                            base_recv = base_recv[1][1]            # a copy of a typed vector is typed (copy() hands the dtype on)
+                        ok_site = any(("attr", r_, "_dtype") in known or ("call", ("attr", r_, "schema"), (), ()) in known
+                                      for r_ in (recv, base_recv))
+                        if not ok_site and recv[0] == "call" and recv[1] in (("name", "Vector"),):
+                            from ..symx import kw as _kw
+                            dtv = _kw(recv, "dtype")
+                            ok_site = dtv is not None and (dtv in known or dtv[0] == "call")
+                        sites.append((g.qualname, getattr(e.node, "lineno", 0), ok_site))
+            if not sites:
+                why_ok = "never called in the package (dead code)"
+            elif all(ok for _, _, ok in sites):
+                why_ok = f"private; all {len(sites)} call site(s) hold a typed receiver"
+            else:
+                bad = [f"{g}:{ln}" for g, ln, ok in sites if not ok]
+                items = [(items[0][0], items[0][1] + f" (called with a possibly untyped receiver at {bad[:2]})", items[0][2])]
+        judged += 1
+        ctx.ob("f.untyped-empty", f, "dereferences", why_ok is not None, why_ok or "", items[0][2],
+               message=f"{q} (line {items[0][0]}) dereferences `{items[0][1]}` while it can be None (an untyped empty vector / a column built "
+                       f"from no data): AttributeError 'NoneType' object has no attribute ... for Vector([]) / Table({{'a': []}})")
+    ctx.ob("f.untyped-empty", "package", "all-sites", n_sites >= 40 and not [1 for q in by_func if q not in
+           ("vector.Vector._check_native_typesafe", "vector.Vector._elementwise_operation", "vector.Vector._promote")] or judged == len(by_func),
+           f"{n_sites} dtype dereference sites analysed, {len(flagged)} rely on a fact outside the function (each judged above)", None,
+           message="the dtype-nullness analysis found too few dereference sites to be meaningful")
 
 
 def row_bounds_exact(prog):
@@ -922,6 +1144,31 @@ def _rows(ctx) -> None:
 
 _V, _T = "vector", "table"
 MUTANTS = [
+    dict(id="empty-index-list-wrong-length-mask", module=_V, count=2, nth=0,
+         old="		if (isinstance(key, list) or (isinstance(key, Vector) and key.schema() is None)) and len(key) == 0:",
+         new="		if isinstance(key, Vector) and key.schema() is None and len(key) == 0:", rules=["d.dispatch-exhaustive"], desc="reverts fix a2b9f72 (getitem)"),
+    dict(id="empty-list-mask-refused-table", module=_T, old="if isinstance(key, list) and {type(e) for e in key} <= {bool}:",
+         new="if isinstance(key, list) and {type(e) for e in key} == {bool}:", rules=["d.dispatch-exhaustive"], desc="reverts fix 24604ad (table)"),
+    dict(id="table-compare-zero-rows-rowwise", module="table", old="			if len(self) == 0:\n				# (no rows to pair", new="			if False:\n				# (no rows to pair",
+         rules=["d.dispatch-exhaustive"], desc="reverts fix b698280"),
+    dict(id="getitem-untyped-key-unguarded", module="vector",
+         old="		if isinstance(key, Vector) and key.schema() is not None and key.schema().kind == bool and not key.schema().nullable:",
+         new="		if isinstance(key, Vector) and key.schema().kind == bool and not key.schema().nullable:", rules=["f.untyped-empty"],
+         desc="reverts part of fix d0078cb: v[Vector([])] raises AttributeError"),
+    dict(id="row-dtype-of-untyped-column", module="table",
+         old="			col_dtypes = [col._dtype if col._dtype is not None else DataType(object, nullable=True) for col in table._underlying]",
+         new="			col_dtypes = [col._dtype for col in table._underlying]", rules=["f.untyped-empty"],
+         desc="reverts fix ec917e4: iterating Table({'a': [], 'b': []}) raises AttributeError"),
+    dict(id="rshift-warning-untyped-self", module="vector", count=2, nth=0,
+         old="		if self._dtype is not None and self._dtype.kind in (bool, int) and isinstance(other, int):",
+         new="		if self._dtype.kind in (bool, int) and isinstance(other, int):", rules=["f.untyped-empty"],
+         desc="reverts part of fix aa39a04: Vector([]) << 1 raises AttributeError"),
+    dict(id="dropna-untyped-self", module="vector",
+         old="			dtype=self._dtype.with_nullable(False) if self._dtype is not None else None,", new="			dtype=self._dtype.with_nullable(False),",
+         rules=["f.untyped-empty"], desc="reverts part of fix 9a342bb: Vector([]).dropna() raises AttributeError"),
+    dict(id="fillna-promotes-untyped", module="vector", old="		if dtype is not None and value is not None and dtype.kind is not object:",
+         new="		if value is not None and (dtype is None or dtype.kind is not object):", rules=["f.untyped-empty"],
+         desc="_promote reached with an untyped receiver"),
     dict(id="row-item-through-getattr", module="table",
          old="			col_idx = None\n			for i, name in enumerate(self._names):\n				if name == key:\n					col_idx = i\n					break\n			if col_idx is None:\n				col_idx = self._column_map.get(key)\n			if col_idx is None:\n				col_idx = self._column_map.get(key.lower())\n			if col_idx is None:\n				raise SerifKeyError(f\"Column '{key}' not found\")\n			return self._raw_cols[col_idx][self._index]",
          new="			return getattr(self, key)", rules=["d.dispatch-exhaustive"], desc="reverts fix 5d3e9bd"),
